@@ -25,4 +25,6 @@ def run(ctx):
     E = Effects(F, CG, None)
     T.clause_who_touches_disk(R, F, E)
     T.clause_engine_commit_clear(R, F)
+    import enginerules as ER
+    ER.clause_block_info_reset(R, F, owners=("clear_caches",))
     return R
